@@ -134,8 +134,28 @@ pub fn run_parent(id: &str, tier: Tier, seed: u64) -> Report {
     }
 }
 
+/// Run a CLI family a second time with the dev-profile build of the CLI (overflow checks on), if one was built.
+pub fn both_profiles<F: FnMut(&mut Report)>(rep: &mut Report, mut f: F) {
+    f(rep);
+    if crate::cli::set_debug_profile(true) {
+        f(rep);
+        crate::cli::set_debug_profile(false);
+        rep.corner("cli_family_repeated_with_overflow_checked_build");
+    } else {
+        rep.corner("no_overflow_checked_build_available");
+    }
+}
+
 /// Re-execute one recorded case; Ok(Some(msg)) = still violates
 pub fn replay(id: &str, case: &serde_json::Value) -> Result<Option<String>, String> {
+    if case.get("profile").and_then(|p| p.as_str()) == Some("overflow-checked") && !crate::cli::debug_profile() {
+        if !crate::cli::set_debug_profile(true) {
+            return Err("the case needs the dev-profile CLI build (./check --setup)".into());
+        }
+        let r = replay(id, case);
+        crate::cli::set_debug_profile(false);
+        return r;
+    }
     match id {
         "C01" => c01::replay(case),
         "C02" => c02::replay(case),
